@@ -85,6 +85,42 @@ func CorpusHistories(scratch string, names map[string]bool) ([]*History, []strin
 			}
 			return nil
 		}, func(g *Genesis) { easyParams(g); g.Params.SlashRatio = 50 }},
+		// the two ends of the legal slash-ratio range.  100: every stake is cut to power 0 and STAYS bonded
+		// (floor(p*100/100) = p >= 1: it "can be reduced"); its owner can still release it and a later
+		// stake bonds next to it.  0: floor(p*0/100) = 0 for every stake, so every stake is "too small to
+		// be reduced" and is forfeited as a whole — what the code does and Spec.v says (slash_kept_ratio0)
+		{"slash-ratio-100", 2, 2, 9, func(s *Sim, h int64) []*TxSpec {
+			switch h {
+			case 2:
+				return []*TxSpec{s.TxStake(s.User(0), s.Val(0).Addr, 10)}
+			case 3:
+				s.scriptEvidence = [][]byte{s.Val(0).Addr}
+			case 4:
+				return []*TxSpec{s.TxStake(s.User(1), s.Val(0).Addr, 4)}
+			case 5:
+				for _, st := range s.stakes {
+					if string(st.From) == string(s.User(0).Addr) {
+						return []*TxSpec{s.TxUnstake(s.User(0), s.Val(0).Addr, st.Hash)}
+					}
+				}
+			case 6:
+				s.scriptEvidence = [][]byte{s.Val(0).Addr}
+			}
+			return nil
+		}, func(g *Genesis) { easyParams(g); g.Params.SlashRatio = 100 }},
+		{"slash-ratio-0", 2, 2, 7, func(s *Sim, h int64) []*TxSpec {
+			switch h {
+			case 2:
+				return []*TxSpec{s.TxStake(s.User(0), s.Val(0).Addr, 10)}
+			case 3:
+				s.scriptEvidence = [][]byte{s.Val(1).Addr}
+			case 4:
+				return []*TxSpec{s.TxStake(s.User(1), s.Val(1).Addr, 4)}
+			case 5:
+				s.scriptEvidence = [][]byte{s.Val(0).Addr}
+			}
+			return nil
+		}, func(g *Genesis) { easyParams(g); g.Params.SlashRatio = 0 }},
 		// a validator's own stake falls below the minimum while delegations keep its total above it:
 		// it must leave the validator set (the selection is by own stake, the ranking by total power)
 		{"own-stake-falls-below-minimum", 2, 3, 11, func(s *Sim, h int64) []*TxSpec {
